@@ -167,7 +167,9 @@ def run_cases(binp, cases, seed):
     sd = vlib.scratch('x03cases')
     try:
         inp, outp = os.path.join(sd, 'in.json'), os.path.join(sd, 'out.json')
-        json.dump({'Nodes': NODES, 'AsyncNodes': ASYNC, 'Kinds': ['ts', 'spl'], 'WdKinds': ['ts', 'spl'], 'route': route, 'wd': wd}, open(inp, 'w'))
+        clamp = sorted(cases['i']['clamp'], key=lambda c: c['p'])
+        json.dump({'Nodes': NODES, 'AsyncNodes': ASYNC, 'Kinds': ['ts', 'spl'], 'WdKinds': ['ts', 'spl'], 'route': route, 'wd': wd,
+                   'clamp': [{'p': c['p']} for c in clamp]}, open(inp, 'w'))
         r = vlib.run_cmd([binp, 'cases', '-in', inp, '-out', outp, '-seed', str(seed)], timeout=300)
         if r.returncode != 0 or not os.path.exists(outp):
             raise vlib.Infra('x03 cases failed: ' + (r.stdout + r.stderr)[-3000:] + (open(outp).read()[-2000:] if os.path.exists(outp) else ''))
@@ -178,11 +180,21 @@ def run_cases(binp, cases, seed):
     for pn in out.get('panics') or []:
         rp = vlib.save_replay(PID, 'cases_panic', {'kind': 'child process died of a panic in the code under test', 'panic': pn})
         viols.append({'property': PID, 'signature': 'panic|' + pn.split(' in ')[-1].split('/')[-1], 'msg': pn, 'replay': rp})
+    # workers per pool for every configured ParallelNum (never zero: the selection cannot index an empty pool)
+    want_w = {c['p']: c['w'] for c in clamp}
+    bad = [o for o in out.get('clamp') or [] if o.get('note') or o.get('workers') != [want_w[o['p']]] * 2 or not o.get('landed')]
+    if len(out.get('clamp') or []) != len(clamp):
+        raise vlib.Infra('clamp cases not run')
+    if bad:
+        rp = vlib.save_replay(PID, 'cases_clamp', {'kind': 'constructor with ParallelNum = p', 'observed': bad, 'model': want_w})
+        viols.append({'property': PID, 'signature': 'cases|clamp|' + ('panic' if any(o.get('note') for o in bad) else 'workers'), 'replay': rp,
+                      'msg': 'impl.NewSamplesInsertService with ParallelNum %d: pools of %s workers (model: %d), push landed: %s %s' % (
+                          bad[0]['p'], bad[0].get('workers'), want_w[bad[0]['p']], bad[0].get('landed'), bad[0].get('note', ''))})
     intended = {}
     for c in cases['i']['route']:
         for layer in ('http', 'svc'):
             intended.setdefault((c['d'], c['h'], layer), []).append(c[layer])
-    stats = {'route_cases': len(route), 'route_runs': 0, 'as_is': 0, 'as_demanded': 0, 'wd_cases': len(wd), 'wd_check_calls': 0}
+    stats = {'clamp_cases': len(clamp), 'zero_workers_without_constructor': out.get('zero_workers_direct'), 'route_cases': len(route), 'route_runs': 0, 'as_is': 0, 'as_demanded': 0, 'wd_cases': len(wd), 'wd_check_calls': 0}
     seen = {}
     for o in out['route']:
         c = q[o['id']]
@@ -329,6 +341,10 @@ def traces(binp, q, tier, seed):
                     stats[k][kk] = stats[k].get(kk, 0) + vv
             else:
                 stats[k] += x
+    if not viols:
+        for k in ('Route', 'Append', 'Iter', 'Swap', 'DoCall', 'Release', 'Done', 'StopCall', 'StopRet', 'RunRet', 'PlanFlush', 'InitAgain', 'RunAgain'):
+            if not stats['event_kinds'].get(k):
+                raise vlib.Infra('recorded traces are vacuous: no %s event' % k)
     return viols, stats, sample
 
 
@@ -445,6 +461,17 @@ def wd_plans(tier, seed):
 
 
 def wd_live(binp, plans, seed):
+    viols, results = wd_live_once(binp, plans, seed)
+    if viols:
+        # real time on a loaded machine: a scenario that disagrees is run once more and must disagree again
+        bad = [p for p in plans if any(v['replay'].endswith('_%d.json' % p['id']) for v in viols)]
+        v2, r2 = wd_live_once(binp, bad, seed)
+        keep = {x['replay'] for x in v2}
+        viols = [v for v in viols if v['replay'] in keep]
+    return viols, results
+
+
+def wd_live_once(binp, plans, seed):
     sd = vlib.scratch('x03wd')
     try:
         inp, outp = os.path.join(sd, 'in.json'), os.path.join(sd, 'out.json')
